@@ -20,6 +20,8 @@ def run(chk):
     chk.attempt(r13d, chk)
     chk.attempt(r13e, chk)
     chk.attempt(r13k, chk)
+    chk.attempt(r13l, chk)
+    chk.attempt(r13m, chk)
     from .c10 import r10e
 
     chk.attempt(r10e, chk, 'R13.g')
@@ -451,3 +453,70 @@ def r13j(chk, rid='R13.j'):
             res = f'{type(e).__name__}: {e}'
         chk.ob(rid, PROFILES, 'Profiles._compile_regexes', f'{prop}: {value!r} is ' + ('accepted' if want else 'rejected'), res == want, f'the compiled validator answers {res!r}: the verdict depends on the letter case (or on what surrounds the keyword)')
     chk.ob(rid, PROFILES, 'Profiles._compile_regexes', 'a callable validator is kept as it is', got['c'] is custom, '')
+
+
+def r13l(chk, rid='R13.l'):
+    chk.rule(rid, 'the number macros of the validator cover the numbers of the tokenizer (language inclusion on the automata): every text the tokenizer\'s {num} macro accepts - digits with an optional fraction, or a fraction without integer part, with an optional minus sign - is accepted by the validation macro num, and every unsigned one by positivenum; so the verdict on a value does not depend on how the serializer spells its numbers (leading zero omitted or not)')
+    from .tables import TokTables
+
+    pt = ProfileTables(chk.repo)
+    env = pt.bulk_macros()
+    tt = TokTables(chk.repo)
+    if 'num' not in tt.macros:
+        raise AnalysisError('cssproductions.MACROS: macro num vanished')
+    unsigned = r'(?:[0-9]*\.[0-9]+|[0-9]+)'
+    # the reference is tied to the tokenizer: its own num macro is exactly the signed form of `unsigned`
+    eq, w = rx.equivalent(tt.macro_nfa('num'), rx.compile_nfa(r'[+-]?' + unsigned, tt.flags))
+    if not eq:
+        raise AnalysisError(f'the tokenizer macro num is not [+-]?(digits with optional fraction) any more (differs on {w!r})')
+    for name, ref in (('num', '-?' + unsigned), ('positivenum', unsigned)):
+        if name not in env:
+            raise AnalysisError(f'profiles: macro {name} vanished')
+        b = pt.expand('{%s}' % name, env)
+        nb = rx.compile_nfa('(?:%s)' % b, pt.flags)
+        nab = rx.compile_nfa('(?:%s)|(?:%s)' % (ref, b), pt.flags)
+        eq, w = rx.equivalent(nab, nb)
+        chk.ob(rid, PROFILES, 'Profiles._TOKEN_MACROS', f'validation macro {name} accepts every number of the form {ref}', eq, f'{w!r} is a number for the tokenizer (and the way the serializer writes it under omitLeadingZero) but not for the validator: a valid declaration is reported invalid, and sheet.valid changes with a serializer preference')
+
+
+def r13m(chk, rid='R13.m'):
+    chk.rule(rid, 'the text that is validated is the value without its comments, decided by evaluation: CSSSerializer.do_css_PropertyValue (writing through the source\'s own Out class) is evaluated with valuesOnly on and off for a value made of a dimension, a comment, a nested function value, a colour value and a variable reference that cannot be resolved (its computed value is None): with valuesOnly the text holds every component - also the unresolvable one - in order and no comment; without it the comment as well')
+    from sa.absint import Evaluator, Raised, Record
+
+    from .c06 import out_model
+
+    m = chk.repo.mod('cssutils/serialize.py')
+    fn = m.get('CSSSerializer.do_css_PropertyValue')
+
+    class CommentM(Record):
+        @property
+        def cssText(self):
+            return '/*c*/'
+
+    class ValueM(Record):
+        def __init__(self, text_, value):
+            Record.__init__(self, text_=text_, value=value)
+
+        @property
+        def cssText(self):
+            return self.text_
+
+    class ColorM(ValueM):
+        pass
+
+    class FuncM(ValueM):
+        pass
+
+    items = [Record(type='DIMENSION', value=ValueM('1px', 1)), Record(type=CommentM, value=CommentM()), Record(type='FUNCTION', value=FuncM('f(a /*i*/ b)', 'f(a b)')),
+             Record(type='COLOR_VALUE', value=ColorM('rgb(1, 2, 3)', 'rgb(1, 2, 3)')), Record(type='VARIABLE', value=FuncM('var(nope)', None)), Record(type='IDENT', value='block')]
+    prefs = Record(spacer=' ', selectorCombinatorSpacer=' ', keepComments=True, indentClosingBrace=False, listItemSpacer=' ', propertyNameSpacer=' ', paranthesisSpacer=' ', lineSeparator='\n', minimizeColorHash=True)
+    ser = Record(prefs=prefs, _level=0)
+    css = Record(CSSComment=CommentM, value=Record(ColorValue=ColorM, CSSFunction=FuncM, Value=ValueM), ColorValue=ColorM, CSSFunction=FuncM)
+    for only in (True, False):
+        got = Evaluator(fn, intrinsics={'Out': lambda s: out_model(chk, s), 'cssutils': Record(css=css)}, module=m, cls='CSSSerializer', model_types=(CommentM, ValueM)).run(self=ser, value=Record(seq=items), valuesOnly=only)
+        want = ['1px'] + ([] if only else ['/*c*/']) + ['f(a /*i*/ b)', 'rgb(1, 2, 3)', 'var(nope)', 'block']
+        words = got if isinstance(got, str) else ''
+        pos = [words.find(w) for w in want]
+        ok = isinstance(got, str) and all(p >= 0 for p in pos) and pos == sorted(pos) and (only is False or '/*c*/' not in words)
+        chk.ob(rid, 'cssutils/serialize.py', 'CSSSerializer.do_css_PropertyValue', f'valuesOnly={only}: every component of the value is written, in order' + (', no top-level comment' if only else ', the comment too'), ok,
+               f'written as {got!r}: a component that is missing from the validated text cannot make the declaration invalid (display: var(nope) block is reported valid)')
